@@ -62,16 +62,12 @@ func (d *Deduplicator) NotifyDKGStarted(
 
 	// The cache key is the hexadecimal representation of the seed.
 	cacheKey := newDKGSeed.Text(16)
-	// If the key is not in the cache, that means the seed was not handled
-	// yet and the client should proceed with the execution.
-	if !d.dkgSeedCache.Has(cacheKey) {
-		d.dkgSeedCache.Add(cacheKey)
-		return true
-	}
-
-	// Otherwise, the DKG seed is a duplicate and the client should not proceed
-	// with the execution.
-	return false
+	// Add reports whether the key was newly added to the cache. The check and
+	// the insertion are done in a single atomic step so that, when the same
+	// event is delivered concurrently, exactly one delivery proceeds with the
+	// execution. If the key was already in the cache, the DKG seed is
+	// a duplicate and the client should not proceed with the execution.
+	return d.dkgSeedCache.Add(cacheKey)
 }
 
 // NotifyRelayEntryStarted notifies the client wants to start relay entry
